@@ -39,6 +39,8 @@ type output struct {
 	Skipped     int               `json:"skipped_thread_local_values"`
 	Warnings    []string          `json:"warnings"`
 	CoqRows     []string          `json:"coq_rows"`
+	Foreign     []*foreignSite    `json:"foreign_calls"` // calls that leave the scanned code while a mutex is held (reentry.go)
+	Queries     []queryOut        `json:"public_getters"`
 }
 
 type spawnOut struct {
@@ -164,6 +166,13 @@ func (sc *scanner) result(repo string) *output {
 	for _, e := range sc.edges {
 		locks[e.from] = true
 		locks[e.to] = true
+	}
+	o.Foreign = sc.foreignSites()
+	o.Queries = sc.queries
+	for _, f := range o.Foreign {
+		for _, l := range append(append([]string{}, f.Held...), f.Pub...) {
+			locks[l] = true
+		}
 	}
 	for l := range locs {
 		o.Locs = append(o.Locs, l)
@@ -291,6 +300,32 @@ func renderCoq(o *output) string {
 	lockID := index(o.Locks)
 	for i, e := range o.Edges {
 		fmt.Fprintf(&sb, "  (%d, %d)%s (* %s -> %s at %s *)\n", lockID[e[0]], lockID[e[1]], sep(i, len(o.Edges)), e[0], e[1], o.EdgePos[i])
+	}
+	sb.WriteString("].\n\n(* calls that leave the scanned code (user callbacks: function values; the next element of the chain:\n   interceptor.* interfaces) made while a mutex is held: (mutexes held at the call, mutexes the public methods\n   of the object - which that code may call - acquire).  See tools/lockscan/reentry.go, Properties/C10d.v. *)\n")
+	for pass := 0; pass < 2; pass++ {
+		var sites []*foreignSite
+		for _, f := range o.Foreign {
+			if (f.Pending != "") == (pass == 1) {
+				sites = append(sites, f)
+			}
+		}
+		if pass == 0 {
+			sb.WriteString("Definition callback_sites : list (list Z * list Z) := [\n")
+		} else {
+			sb.WriteString("].\n\n(* sites under a pending-fix annotation (a filed finding whose repair awaits integration): reported by the\n   check as KNOWN-FINDING cases, not part of the obligation C10d_callback_sites_ok *)\n")
+			sb.WriteString("Definition pending_callback_sites : list (list Z * list Z) := [\n")
+		}
+		for i, f := range sites {
+			var hs, ps []int
+			for _, l := range f.Held {
+				hs = append(hs, lockID[l])
+			}
+			for _, l := range f.Pub {
+				ps = append(ps, lockID[l])
+			}
+			fmt.Fprintf(&sb, "  (%s, %s)%s (* %s in %s at %s, holding %s *)\n", coqZList(hs), coqZList(ps), sep(i, len(sites)),
+				f.What, f.Func, f.Pos, strings.Join(f.Held, ", "))
+		}
 	}
 	sb.WriteString("].\n")
 
